@@ -450,6 +450,8 @@ def evaluate(ctx, case):
                 elif op[0] == "o":
                     want = ("E", "TypeError")       # as a Python list answers an index of that type
                     ctx.count("other-index:" + str(op[1]))
+                    if str(op[1]).startswith("np") and res[:2] == ("E", "IndexError"):
+                        want = res[:2]                  # (taken as an index, out of range)
                     if str(op[1]).startswith("np") and res[0] == "R":
                         # a numpy integer IS an index for a Python list (`__index__`); the view refuses it today.
                         # Should it ever accept one, it must hand out that residue
@@ -573,6 +575,13 @@ def evaluate(ctx, case):
             else:
                 m = ("R", [[atoms[d] for d in r] for r in T.list(T.residue)])
             mc = (T.int(), T.int())
+            opk = case["ops"][k] if k < len(case["ops"]) else None
+            if m != res[:2] and opk and opk[0] == "o" and str(opk[1]).startswith("np") and res[:2] != ("E", "TypeError"):
+                # a numpy integer taken as an index (the model refuses every index that is not an int or a slice):
+                # outside the property; the access reads the file, so the cursor bookkeeping of the rest of the
+                # sequence is not compared either.  The oracle above judges what the access returned.
+                ctx.count("model-not-compared:numpy-integer-index-accepted")
+                return
             if m != res[:2]:
                 ctx.disagree(case, f"op {k} {case['ops'][k] if k < len(case['ops']) else ''}",
                              _short(res[:2]), _short(m))
